@@ -63,7 +63,8 @@ TStep == /\ l <= Len(Ev) /\ Cur.mech \notin {"kc_add", "edit"} /\ ~Cur.raised
          /\ Cur.frame = fd                                      \* nothing outside the unlocking data moved
          /\ NotAccumulated(Cur.nsig)                            \* stale signatures replaced, not kept alongside
          /\ \A i \in ToSet(Cur.changed) : unlock'[i] # unlock[i]  \* only inputs the pass may rewrite changed
-         /\ Cur.canonical                                       \* every signature present: strict DER, low S
+         /\ Cur.canonical                                       \* every signature present: strict DER, low S (for a "lookup" pass also
+                                                                \* every signature its key-less twin wrote from outside signatures)
          /\ \A i \in Ins : Cur.reported[i] = Cur.valid[i]       \* is_solution_ok agrees
          /\ Cur.bad = BadNow'                                   \* bad_solution_count() = failing inputs
          /\ Cur.mech = "create_signed" => BadNow' = 0           \* it returned: everything must be signed
